@@ -79,6 +79,7 @@ def run_case(case):
     res = {"evals": 1, "violations": [], "faults": {}, "probes": {}, "rejected": {}, "classes": {}, "sigs": []}
     fam = gen.chain_family(sess.get("chain"))
     cls = {"chain": fam, "header": sess["header"], "target": case["target"], "mode": sess["mode"]}
+    cls.update(gen.dep_flags([sess.get("chain")], case["read"]["chunk"], case["read"]["block"]))
 
     def viol(oracle, site, detail, **extra):
         c = dict(cls)
@@ -311,3 +312,7 @@ def shrink_candidates(case):
         c = copy.deepcopy(case)
         c["path_extract"] = False
         yield c
+
+
+def case_class(case):
+    return gen.dep_flags([case["session"].get("chain")], case["read"]["chunk"], case["read"]["block"])
